@@ -151,7 +151,12 @@ def run(chk, tier):
             for body in [fn] + fn.promoted:
                 for bb, name, t in L.panic_sites(body):
                     nsites += 1
-                    ok = any(d == ad and re.search(rx, name) for (ad, rx) in allowed)
+                    owners = {d}
+                    if symex.is_new_helper(fn):
+                        # a step extracted into a helper of its own is judged as part of the reference-tree functions that call it
+                        ups = set((c.root if c.kind in ('closure', 'promoted') else c.defp) for c, _, _ in F.callers_of(d))
+                        owners = ups or owners
+                    ok = all(any(o == ad and re.search(rx, name) for (ad, rx) in allowed) for o in owners)
                     chk.ob('R08.1', 'explicit panic site on the mocked-call path goes through induce_panic', ok, config=cfg, fn=body,
                            site='panic:%s' % name, what='unrecorded panic site', found={'callee': name, 'line': t.get('line')},
                            expected='only Unimock::induce_panic panics (after recording); everything else returns MockError')
